@@ -12,7 +12,7 @@ def both(cases, impl=None, model=None, shards=NPROC, timeout=1800):
     return rc1, o1, e1, o2
 
 
-def diff_games(ctx, op, games, what, impl=None, model=None, max_report=3, nontrivial=None):
+def diff_games(ctx, op, games, what, impl=None, model=None, max_report=3, nontrivial=None, tally=None):
     """games: list of (fen, [uci moves]).  Compares per-ply observations.  Returns #observations."""
     cases = ["%s %s | %s" % (op, fen, " ".join(ms)) for fen, ms in games]
     rc1, o1, e1, o2 = both(cases, impl, model)
@@ -32,6 +32,8 @@ def diff_games(ctx, op, games, what, impl=None, model=None, max_report=3, nontri
         pb = b.split(" ; ")
         nobs += len(pb)
         for x in pb:
+            if tally is not None:
+                tally(x)
             if nontrivial is None or nontrivial(x):
                 distinct.add(x)
         if a != b and nviol < max_report:
